@@ -14,6 +14,8 @@ pub fn c04(tier: Tier) -> Vec<Space> {
     let mut v = vec![
         ball(c, 2, variants()),
         field_full("MSG-FIELD(int<=14)", c, variants(), sel_int, 1, 14),
+        field_pairs(c, variants()),
+        dense(c, variants()),
         via_line(c),
     ];
     match tier {
@@ -23,14 +25,11 @@ pub fn c04(tier: Tier) -> Vec<Space> {
         Tier::Thorough => {
             v.push(field_full("MSG-FIELD(int 15..20)", c, variants(), sel_int, 15, 20));
             v.push(field_wide("MSG-FIELD-WIDE(int)", c, variants(), sel_int, 21, 4, 4));
-            // complete 2^30 sweep of the source MMSI in one variant per message type
-            let mut seen = Vec::new();
-            for var in variants() {
-                if seen.contains(&var.t) {
-                    continue;
-                }
-                seen.push(var.t);
-                if let Some(s) = fields_of(&var).iter().find(|s| s.id.0 == "mmsi") {
+            // complete 2^30 sweeps: the source MMSI in types 1 and 24 (part B), the IMO number in
+            // type 5 and the destination MMSI in type 6 (≈ 6 min each on 16 cores)
+            for (vn, field) in [("T1", "mmsi"), ("T24.B", "mmsi"), ("T5", "imo_number"), ("T6", "dest_mmsi")] {
+                let var = variants().into_iter().find(|x| x.name == vn).unwrap();
+                if let Some(s) = fields_of(&var).iter().find(|s| s.id.0 == field) {
                     v.push(field_complete(c, var.clone(), s));
                 }
             }
@@ -50,16 +49,18 @@ pub fn c10(tier: Tier) -> Vec<Space> {
         field_full("MSG-FIELD(scaled<=18)", c, variants(), sel_scaled, 1, 18),
         field_wide("MSG-FIELD-WIDE(coord)", c, variants(), sel_scaled, 19, 2, 2),
     ];
+    v.push(dense(c, variants()));
     if tier == Tier::Thorough {
-        complete_coords(c, &mut v);
+        complete_coords(c, &mut v, &[1, 4, 9, 11, 18, 19, 21]);
     }
     v
 }
 
-fn complete_coords(c: Cfg, v: &mut Vec<Space>) {
+/// complete 2^28 / 2^27 sweeps of longitude / latitude in one variant of each listed type
+fn complete_coords(c: Cfg, v: &mut Vec<Space>, types: &[u8]) {
     let mut seen = Vec::new();
     for var in variants() {
-        if seen.contains(&var.t) {
+        if seen.contains(&var.t) || !types.contains(&var.t) {
             continue;
         }
         seen.push(var.t);
@@ -76,9 +77,10 @@ pub fn c11(tier: Tier) -> Vec<Space> {
     let mut v = vec![
         field_full("MSG-FIELD(optional<=18)", c, variants(), sel_scaled_opt, 1, 18),
         field_wide("MSG-FIELD-WIDE(coord)", c, variants(), sel_scaled, 19, 2, 2),
+        dense(c, variants()),
     ];
     if tier == Tier::Thorough {
-        complete_coords(c, &mut v);
+        complete_coords(c, &mut v, &[2, 21]);
     }
     v
 }
@@ -88,6 +90,7 @@ pub fn c12(_tier: Tier) -> Vec<Space> {
     vec![
         field_full("MSG-ENUM", c, variants(), sel_enum, 1, 8),
         super::c12conv::ship_type_conversions(),
+        dense(c, variants()),
     ]
 }
 
@@ -98,6 +101,7 @@ pub fn c13(tier: Tier) -> Vec<Space> {
         text_deviations(c, vars.clone(), false),
         text_trim(c, vars.clone()),
         text_lengths(c, 132),
+        dense(c, vars.clone()),
     ];
     let b = vars.iter().find(|x| x.name == "T24.B").unwrap().clone();
     v.push(text_complete(c, b.clone(), 48, 3, "T24.B.vendor_id"));
@@ -123,7 +127,7 @@ pub fn c15(_tier: Tier) -> Vec<Space> {
 
 pub fn c16(_tier: Tier) -> Vec<Space> {
     let c = cfg("C16", false);
-    vec![radio(c)]
+    vec![radio(c), dense(c, variants())]
 }
 
 /// C01 (totality) over the payload functions: only panics are reported.
